@@ -726,9 +726,9 @@ def vector_obj(
                 "duplicate coordinates (through momentum-aliases): z/pz"
             )
         longitudinal = vector_obj_Longitudinal_pz
-    elif has_theta and not (has_z or has_eta):
+    elif has_theta and not (has_z or has_pz or has_eta):
         longitudinal = vector_obj_Longitudinal_theta
-    elif has_eta and not (has_z or has_theta):
+    elif has_eta and not (has_z or has_pz or has_theta):
         longitudinal = vector_obj_Longitudinal_eta
 
     if has_t and not (has_tau or has_M or has_m or has_mass):
@@ -785,6 +785,21 @@ def vector_obj(
                 "duplicate coordinates (through momentum-aliases): tau/M/m/mass"
             )
         temporal = vector_obj_Temporal_mass
+
+    has_longitudinal = has_z or has_pz or has_theta or has_eta
+    has_temporal = (
+        has_t or has_E or has_e or has_energy or has_tau or has_M or has_m or has_mass
+    )
+    if (has_longitudinal and longitudinal is None) or (
+        has_temporal and (temporal is None or longitudinal is None)
+    ):
+        # like the interpreted vector.obj: conflicting longitudinal/temporal
+        # coordinates, or a temporal coordinate without a longitudinal one
+        raise numba.TypingError(
+            "unrecognized combination of coordinates: at most one longitudinal "
+            "(z/pz | theta | eta) and one temporal (t/E/e/energy | tau/M/m/mass) "
+            "coordinate, and a temporal coordinate requires a longitudinal one"
+        )
 
     if azimuthal is not None and longitudinal is not None and temporal is not None:
         if is_momentum:
